@@ -1,6 +1,6 @@
 #!/bin/sh
 # usage: tools/run_matrix.sh [tier]   -- run every seeded change found under /tmp/wt/*/_seeded/* through tools/seeded.py
-# (own property's check; results land in ./seeded/<PROP>-<label>/meta.json of the tree this script runs in)
+# (own property's check plus the related checks listed in tools/cross_checks.json; results land in ./seeded/<PROP>-<label>/meta.json of the tree this script runs in)
 tier="${1:-quick}"
 here="$(cd "$(dirname "$0")/.." && pwd)"
 cd "$here" || exit 2
@@ -9,5 +9,7 @@ for d in /tmp/wt/*/_seeded/*/; do
   label="$(basename "$d")"
   prop="$(basename "$(dirname "$(dirname "$d")")" | cut -c1-3)"
   echo "=== $prop $label ($d)"
-  python3 tools/seeded.py "$prop" "${d%/}" "$label" --tier "$tier" --escalate 2>&1 | grep -E "exit|valid:|DOES NOT|refusing"
+  extra="$(python3 -c "import json,sys; print(','.join(json.load(open('tools/cross_checks.json')).get(sys.argv[1], [])))" "$prop-$label")"
+  checks="$prop"; [ -n "$extra" ] && checks="$prop,$extra"
+  python3 tools/seeded.py "$prop" "${d%/}" "$label" --checks "$checks" --tier "$tier" --escalate 2>&1 | grep -E "exit|valid:|DOES NOT|refusing"
 done
